@@ -318,6 +318,93 @@ var failures = []failure{
 		last.Reset()
 		kit.Quiesce()
 	}},
+	{"dialed-pipe-refused-by-protocol", func(w *world) bool { return w.single() }, func(w *world) {
+		// a one-peer pattern with its peer attached refuses the connections its own dialer makes;
+		// the dialer has to keep trying and gets the slot once the peer has gone
+		w.n++
+		name := fmt.Sprintf("c12-ref%d", w.n)
+		ep := vt.Get(name)
+		ep.Script(vt.DialOK)
+		w.dropAllPeers()
+		w.x.P = w.x.EP.Connect()
+		kit.Quiesce()
+		d, err := w.x.S.NewDialer("vt://"+name, map[string]interface{}{mangos.OptionDialAsynch: true, mangos.OptionReconnectTime: 10 * time.Millisecond, mangos.OptionMaxReconnectTime: 10 * time.Millisecond})
+		if err != nil {
+			kit.Failf("newdialer", "NewDialer: %s", kit.ErrName(err))
+		}
+		if err := call("Dial(async)", 0, d.Dial); err != nil {
+			kit.Failf("dial-async", "asynchronous Dial: %s", kit.ErrName(err))
+		}
+		kit.Quiesce()
+		kit.Sleep(time.Second)
+		kit.Quiesce()
+		if w.byAddr["vt://"+name] == 0 {
+			// (otherwise the slot happened to be free and the dialer simply got it)
+			if ep.NumDials() < 2 {
+				kit.Failf("dialer-stopped-redialling:protocol-refusal", "%s: the connection made by the dialer was refused by the protocol (a peer is attached) and the dialer made no further attempt in 1s (ReconnectTime 10ms)", w.k.Name)
+			}
+			kit.Count("error-provoked")
+			before := len(w.pipes)
+			w.dropAllPeers()
+			kit.Sleep(time.Second)
+			kit.Quiesce()
+			if w.byAddr["vt://"+name] == 0 && len(w.pipes) == before {
+				kit.Failf("dialer-stopped-redialling:protocol-refusal-takeover", "%s: the attached peer has gone, the dialer can connect, yet nothing is attached a second later (attempts: %d)", w.k.Name, ep.NumDials())
+			}
+			kit.Count("dialer-still-redials")
+		}
+		_ = call("Dialer.Close", 0, d.Close)
+		w.dropAllPeers()
+		w.x.P = w.x.EP.Connect()
+		kit.Quiesce()
+	}},
+	{"tcp-peer-stalls-during-handshake", func(w *world) bool { return !vsched.Conformance }, func(w *world) {
+		// connections that go silent 0 and 3 bytes into their header stay open; meanwhile the
+		// listener must accept others, and go on doing so after the silent ones were lost
+		w.n++
+		addr := fmt.Sprintf("127.0.0.1:%d", 4400+w.n)
+		if err := call("Listen(tcp)", 0, func() error { return w.x.S.Listen("tcp://" + addr) }); err != nil {
+			kit.Failf("tcp-listen", "Listen(tcp over vnet): %s", kit.ErrName(err))
+		}
+		ep := net.VGet(addr)
+		hdr := []byte{0, 'S', 'P', 0, byte(w.x.S.Info().Peer >> 8), byte(w.x.S.Info().Peer), 0, 0}
+		var silent []*net.VConn
+		for _, n := range []int{0, 3} {
+			h := ep.Connect()
+			h.Feed(hdr[:n])
+			silent = append(silent, h)
+		}
+		kit.Quiesce()
+		kit.Sleep(2 * time.Second)
+		kit.Quiesce()
+		kit.Count("error-provoked")
+		for round := 0; round < 2; round++ {
+			if w.single() {
+				// free the only slot (a dialer left by an earlier step may have taken it meanwhile)
+				vt.DropAll()
+				kit.Quiesce()
+			}
+			before, had := len(w.pipes), w.byAddr["tcp://"+addr]
+			g := ep.Connect()
+			g.Feed(hdr)
+			kit.Quiesce()
+			kit.Sleep(2 * time.Second)
+			kit.Quiesce()
+			if w.byAddr["tcp://"+addr] != had+1 && !(w.single() && len(w.pipes) > before) {
+				kit.Failf("listener-stopped-accepting:tcp-stalled", "%s: while two connections are silent in their handshake (round 0) / after they were lost (round 1) a well-behaved TCP peer does not attach (round %d)", w.k.Name, round)
+			}
+			g.Reset()
+			kit.Quiesce()
+			if round == 0 {
+				for _, h := range silent {
+					h.Reset()
+				}
+				kit.Quiesce()
+				kit.Sleep(2 * time.Second)
+				kit.Quiesce()
+			}
+		}
+	}},
 	{"dialer-closed-then-peer-drops", nil, func(w *world) {
 		w.n++
 		name := fmt.Sprintf("c12-cdd%d", w.n)
